@@ -10,7 +10,9 @@
   "Reachable state" = a model environment satisfying C09's invariant `Inv` (which includes "bounds are
   fresh"); see `C09.reach_inv`.  Hypotheses on the parameters (`Hyps`): the computer keeps knowledge
   (`ComputeOK`), depends on knowledge only (`KnowledgeOnly`, C08), accepts every table that knows the
-  initial coalitions; the gap function reads table rows only and does not raise.
+  initial coalitions; the gap function reads table rows only and does not raise on the tables the environment
+  hands it (`GapDefined`: tables of `P.n` players that know the initially known coalitions — weaker than
+  "never raises", which is false for exploitability: it raises ValueError when N is unknown).
   "Exactly as it found it" is `EnvEq`: all fields equal, known flags equal, bounds equal on every row `< 2^n`
   (plus: it is again in the same abstract state, `Inv … e' s`).
   With no valid action greedy / worst-greedy / largest raise ValueError (`max()` of an empty list) and the
@@ -25,6 +27,15 @@ open ICG Table Env ICG.C09
 
 variable {α : Type}
 
+/-- the gap function does not raise on the tables the environment ever hands it: tables of `P.n` players in
+    which the initially known coalitions are known.  (`GapTotal gap`, "never raises on ANY table", implies it —
+    `GapDefined.of_total` — but is false for exploitability, which is defined exactly when N is known.) -/
+def GapDefined (gap : Table α → Except Err α) (P : Params) : Prop :=
+  ∀ t : Table α, t.n = P.n → (∀ c ∈ P.ik, t.known c = true) → ∃ g, gap t = .ok g
+
+theorem GapDefined.of_total {gap : Table α → Except Err α} (h : GapTotal gap) (P : Params) : GapDefined gap P :=
+  fun t _ _ => h t
+
 /-- what is assumed about the two parameters -/
 structure Hyps [Zero α] [Neg α] [Sub α] [DecidableEq α] (compute : Table α → Except Err (Table α))
     (gap : Table α → Except Err α) (P : Params) : Prop where
@@ -32,7 +43,7 @@ structure Hyps [Zero α] [Neg α] [Sub α] [DecidableEq α] (compute : Table α 
   ko : KnowledgeOnly compute
   ro : RowsOnly gap
   tot : ComputeTotal compute P
-  gtot : GapTotal gap
+  gtot : GapDefined gap P
   wf : P.WF
 
 /-- the immediate reward of action `a`: what `step a` returns as reward (`none` if the call raises) -/
@@ -63,13 +74,71 @@ theorem inv_envEq (H : Hyps compute gap P) {e e' : Env α} {s : Spec α}
   apply hrows c
   rw [hsk0.1]; exact hc
 
+/-- a valid `step` at a reachable state never raises (C09 `step_succeeds` needs `GapTotal`; here the gap is only
+    asked to be defined on the recomputed table, which has `P.n` players and knows the initial coalitions) -/
+theorem step_of_hyps (H : Hyps compute gap P) {e : Env α} {s : Spec α} {a : Nat}
+    (hinv : Inv compute P e s) (hv : validStep P s a = true) :
+    ∃ e' out, step compute gap e a = .ok (e', out) := by
+  unfold validStep at hv
+  cases hc : P.explorable[a]? with
+  | none => simp [hc] at hv
+  | some c =>
+    simp only [hc, Bool.not_eq_true'] at hv
+    have hcm : c ∈ P.explorable := List.mem_of_getElem? hc
+    have hlt : c < 2 ^ e.table.n := by rw [hinv.n]; exact (mem_explorable.mp hcm).1
+    have hnik : c ∉ P.ik := (mem_explorable.mp hcm).2
+    have hk : e.table.known c = false := by rw [hinv.known c]; simp [Spec.knows, hnik, hv]
+    have hknows : ∀ d ∈ P.ik, (e.table.putValue c (e.full c)).known d = true := fun d hd => by
+      have : e.table.known d = true := by rw [hinv.known d]; simp [Spec.knows, hd]
+      simp [putValue, this]
+    have hex : Exact (e.table.putValue c (e.full c)) := by
+      intro d hd
+      by_cases hdc : d = c
+      · subst hdc; simp [putValue]
+      · have hd' : e.table.known d = true := by simpa [putValue, hdc] using hd
+        simp only [putValue, hdc, if_false]
+        exact hinv.exact d hd'
+    obtain ⟨t2, ht2⟩ := H.tot (e.table.putValue c (e.full c)) hinv.n hknows
+    obtain ⟨g, hg⟩ := H.gtot t2 ((H.ok.n hex ht2).trans hinv.n)
+      (fun d hd => by rw [H.ok.known hex ht2 d]; exact hknows d hd)
+    exact ⟨_, _, step_ok compute gap (hinv.ex ▸ hc) hlt hk ht2 hg⟩
+
+/-- a valid `unstep` at a reachable state never raises -/
+theorem unstep_of_hyps (H : Hyps compute gap P) {e : Env α} {s : Spec α} {a : Nat}
+    (hinv : Inv compute P e s) (hv : validUnstep P s a = true) :
+    ∃ e' out, unstep compute gap e a = .ok (e', out) := by
+  unfold validUnstep at hv
+  cases hc : P.explorable[a]? with
+  | none => simp [hc] at hv
+  | some c =>
+    simp only [hc] at hv
+    have hcm : c ∈ P.explorable := List.mem_of_getElem? hc
+    have hlt : c < 2 ^ e.table.n := by rw [hinv.n]; exact (mem_explorable.mp hcm).1
+    have hnik : c ∉ P.ik := (mem_explorable.mp hcm).2
+    have hk : e.table.known c = true := by rw [hinv.known c]; simp [Spec.knows, hv]
+    have hknows : ∀ d ∈ P.ik, (e.table.clearRow c).known d = true := fun d hd => by
+      have : e.table.known d = true := by rw [hinv.known d]; simp [Spec.knows, hd]
+      have hdc : d ≠ c := fun h => hnik (h ▸ hd)
+      simp [clearRow, this, hdc]
+    have hex : Exact (e.table.clearRow c) := by
+      intro d hd
+      by_cases hdc : d = c
+      · subst hdc; simp [clearRow] at hd
+      · have hd' : e.table.known d = true := by simpa [clearRow, hdc] using hd
+        simp only [clearRow, hdc, if_false]
+        exact hinv.exact d hd'
+    obtain ⟨t2, ht2⟩ := H.tot (e.table.clearRow c) hinv.n hknows
+    obtain ⟨g, hg⟩ := H.gtot t2 ((H.ok.n hex ht2).trans hinv.n)
+      (fun d hd => by rw [H.ok.known hex ht2 d]; exact hknows d hd)
+    exact ⟨_, _, unstep_ok compute gap (hinv.ex ▸ hc) hlt hk ht2 hg⟩
+
 /-- in a given abstract state the immediate reward of a valid action does not depend on the environment
     representing it -/
 theorem stepReward_congr (H : Hyps compute gap P) {e e' : Env α} {s : Spec α}
     (h : Inv compute P e s) (h' : Inv compute P e' s) {a : Nat} (hv : validStep P s a = true) :
     ∃ r, stepReward compute gap e a = some r ∧ stepReward compute gap e' a = some r := by
-  obtain ⟨e1, o1, hs1⟩ := step_succeeds H.tot H.gtot h hv
-  obtain ⟨e1', o1', hs1'⟩ := step_succeeds H.tot H.gtot h' hv
+  obtain ⟨e1, o1, hs1⟩ := step_of_hyps H h hv
+  obtain ⟨e1', o1', hs1'⟩ := step_of_hyps H h' hv
   obtain ⟨c, hc, _, hinv1, _, _, hr1, _⟩ := step_spec H.ok h hs1
   obtain ⟨c', hc', _, hinv1', _, _, hr1', _⟩ := step_spec H.ok h' hs1'
   rw [hc] at hc'
@@ -86,10 +155,10 @@ theorem nextActionValue_spec (H : Hyps compute gap P) {e : Env α} {s : Spec α}
     {a : Nat} (hv : validStep P s a = true) :
     ∃ e2 r, nextActionValue compute gap e a = .ok (e2, r) ∧ Inv compute P e2 s ∧
       stepReward compute gap e a = some r := by
-  obtain ⟨e1, o1, hs1⟩ := step_succeeds H.tot H.gtot h hv
+  obtain ⟨e1, o1, hs1⟩ := step_of_hyps H h hv
   obtain ⟨c, hc, hrev, hinv1, _⟩ := step_spec H.ok h hs1
   have hv2 : validUnstep P (s.step c) a = true := by simp [validUnstep, hc, Spec.step]
-  obtain ⟨e2, o2, hs2⟩ := unstep_succeeds H.tot H.gtot hinv1 hv2
+  obtain ⟨e2, o2, hs2⟩ := unstep_of_hyps H hinv1 hv2
   obtain ⟨c', hc', _, hinv2, _⟩ := unstep_spec H.ok hinv1 hs2
   rw [hc] at hc'
   cases hc'
@@ -355,7 +424,7 @@ theorem toy_hyps [AddCommGroup α] [DecidableEq α] (w : α) (P : Params) (hP : 
   ko := toyCompute_knowledgeOnly w
   ro := toyGap_rowsOnly
   tot := fun _ _ _ => ⟨_, rfl⟩
-  gtot := fun _ => ⟨_, rfl⟩
+  gtot := fun _ _ _ => ⟨_, rfl⟩
   wf := hP
 
 /-- an asymmetric toy: the unknown rows get `[0, 10·c]`, so revealing a bigger id closes a bigger gap -/
@@ -388,7 +457,18 @@ theorem real_hyps [Add α] [Sub α] [LinearOrder α] [Zero α] [Neg α] (k : Com
   ko := computer_knowledgeOnly k
   ro := hro
   tot := computer_computeTotal k hmin
-  gtot := hgt
+  gtot := GapDefined.of_total hgt P
+  wf := hP
+
+/-- the same for a gap function that is only defined where the environment uses it (exploitability: N known) -/
+theorem real_hyps_defined [Add α] [Sub α] [LinearOrder α] [Zero α] [Neg α] (k : Computer)
+    {gap : Table α → Except Err α} {P : Params} (hro : RowsOnly gap) (hgd : GapDefined gap P) (hP : P.WF)
+    (hmin : P.Minimal) : Hyps (k.run : Table α → Except Err (Table α)) gap P where
+  ok := computer_ok k
+  ko := computer_knowledgeOnly k
+  ro := hro
+  tot := computer_computeTotal k hmin
+  gtot := hgd
   wf := hP
 
 /-- specialisation to the model at core `Rat` with core's own instances (what `lean/Driver.lean` links) -/
